@@ -432,6 +432,15 @@ def sigint_child(ctx, rng, tmpdir, idx):
         return {"inconclusive": watchdog + " stderr=" + err.decode("utf-8", "replace")}
     time.sleep(rng.choice((0, 0.001, 0.01, 0.05)))
     p.send_signal(signal.SIGINT)
+    twice = idx % 3 == 2
+    if twice:
+        # an impatient user: Ctrl-C again while the program is busy stopping (the producer has gone quiet, the reading thread
+        # waits for input, the main thread waits for the reading thread).  The second interrupt ends the main thread; the
+        # worker threads still finish what they were told to do before the process goes away.
+        time.sleep(rng.choice((0.3, 0.6, 1.0)))
+        if p.poll() is None:
+            p.send_signal(signal.SIGINT)
+            time.sleep(0.3)
     # after the interrupt: complete the current sample, then close stdin so a read in flight returns
     fcntl.fcntl(fd, fcntl.F_SETFL, fl)
     pad = (-written) % bps
@@ -449,7 +458,7 @@ def sigint_child(ctx, rng, tmpdir, idx):
         p.kill()
         p.communicate()
         return {"hang": True, "written": written}
-    return {"rc": p.returncode, "stdout": out.decode("utf-8", "replace"), "stderr": err.decode("utf-8", "replace")[-800:],
+    return {"rc": p.returncode, "stdout": out.decode("utf-8", "replace"), "stderr": err.decode("utf-8", "replace")[-800:], "twice": twice,
             "written": written, "data": data, "out_wav": out_wav, "fmt": (rate, width, channels), "thr": thr, "win": win}
 
 
@@ -466,7 +475,9 @@ def check_sigint(ctx, r, idx):
     rate, width, channels = r["fmt"]
     bps = width * channels
     w = {"case": case, "rc": r["rc"], "stderr": r["stderr"][-400:], "written": r["written"]}
-    if r["rc"] != 0:
+    if r.get("twice"):
+        ctx.count("sigint_children_interrupted_twice")  # (the exit status after a second Ctrl-C is the interpreter's business)
+    elif r["rc"] != 0:
         ctx.violation("command-line-exit-status-nonzero-after-interrupt", w)
         return
     try:
